@@ -121,11 +121,27 @@ def catalogue():
     C["from_df"] = (lambda E: [FlodymArray.from_df(dims=E.x.dims, df=E.x.to_df()), FlodymArray.from_df(dims=E.ds("ba"), df=E.x.to_df(dim_to_columns="b", index=False))], False)
     C["from_df_caller_frame"] = (lambda E: _from_df_frame(E), False)
     C["plain_after_inplace_unary"] = (lambda E: _plain_after_inplace(E), True)
+    C["read_from_view_backed"] = (lambda E: _read_from_view_backed(E), True)
     # stack / split
     C["stack"] = (lambda E: [flodym_array_stack([E.x, E.z], Dimension(name="Stacked", letter="k", items=["k1", "k2"]))], False)
     # assignment leaves the right-hand side alone
     C["setitem_rhs"] = (lambda E: _setitem_rhs(E), False)
     return C
+
+
+def _read_from_view_backed(E):
+    """slice reads of arrays whose value buffers do not own their memory (a cast result, a transposed input, a strided
+    view of a wider table): the sources are registered as inputs so that the independence probes cover them"""
+    from flodym import FlodymArray
+
+    big = E.x.cast_to(E.ds("cab"))
+    tv = FlodymArray(dims=E.ds("ba"), values=E.vals["x"].copy().T, name="transposed")
+    wide = np.concatenate([E.vals["y"].copy(), E.vals["y"].copy()], axis=1)
+    sv = FlodymArray(dims=E.ds("bc"), values=wide[:, ::2], name="strided")
+    re = FlodymArray(dims=E.ds("ab"), values=E.vals["x"].copy().reshape(4).reshape(2, 2), name="reshaped")
+    E.arrays.update(cast_result=big, transposed=tv, strided=sv, reshaped=re)
+    return [big["c1"], big[{"a": "a1"}], big["c2", "b1"], tv["b1"], tv[{"a": "a2"}], tv[...], sv["c2"], sv[{"b": "b2"}], re["a1"], re[{"b": "b2"}]] \
+        + list(tv.split("a").values()) + list(big.split("c").values())
 
 
 def _from_df_frame(E):
